@@ -1061,8 +1061,8 @@ func (c *Client) AwaitIdle() bool {
 // FailHandshake sends something that starts like a TLS handshake (first byte
 // 22) but that the proxy's TLS server must refuse, consumes the alert the
 // server answers with, and leaves the connection usable for cleartext.
-// kind "garbage": one handshake record with a nonsensical body; kind "tls10":
-// a real ClientHello that offers TLS 1.0 only.
+// kind "garbage": one handshake record with a nonsensical body; kind "alpn":
+// a real ClientHello that offers only an ALPN protocol the proxy does not speak.
 func (c *Client) FailHandshake(kind, serverName string) error {
 	c.Raw.SetDeadline(time.Now().Add(Watchdog))
 	defer c.Raw.SetDeadline(time.Time{})
@@ -1084,11 +1084,12 @@ func (c *Client) FailHandshake(kind, serverName string) error {
 			return fmt.Errorf("reading the alert: %v", err)
 		}
 		return nil
-	case "tls10":
-		tc := tls.Client(c.Raw, &tls.Config{ServerName: serverName, InsecureSkipVerify: true, MinVersion: tls.VersionTLS10, MaxVersion: tls.VersionTLS10})
+	case "alpn":
+		// a real ClientHello whose only ALPN protocol the proxy does not speak
+		tc := tls.Client(c.Raw, &tls.Config{ServerName: serverName, InsecureSkipVerify: true, NextProtos: []string{"vh-unsupported/1"}})
 		err := tc.Handshake()
 		if err == nil {
-			return errors.New("the proxy accepted a TLS 1.0 handshake")
+			return errors.New("the proxy accepted a handshake offering only an unknown ALPN protocol")
 		}
 		if IsWatchdog(err) {
 			return err
